@@ -275,9 +275,10 @@ Proof.
   specialize (D n). destruct (matches n t1), (matches n t2); try reflexivity. discriminate.
 Qed.
 
-(* the decision never looks at anything but the parent's name and the whitespace flag: in particular
-   not at xml:space (GenStrip.consults_xml_space) *)
-Lemma gen_no_xml_space : consults_xml_space = false. Proof. reflexivity. Qed.
+(* the strip decision of a matching strip-space tester is overridden by xml:space="preserve" (fix K-C13-1): the
+   upward search is modelled in StripXsDefs.v *)
+Lemma gen_xml_space : consults_xml_space = true. Proof. reflexivity. Qed.
+
 
 (* ---------------------------------------------------------------------------------------------- *)
 (* xsl:number level="any" *)
